@@ -358,6 +358,12 @@ def decodeCompressedLoop (T : Tables) (edition : Nat) (s4max : Nat) (g : Range) 
                                                 dones := st.dones.map (fun _ => []), todos := tails.map (fun _ => []) }
                 | .error e => .error e
                 | .ok (ds, ts, inv) =>
+                  -- a factor that differs between subsets leaves copies of different lengths: refused
+                  -- like a failed expansion (94.6.3)
+                  if ts.any (fun t => t.length != (ts.headD []).length) then
+                    .ok { st with r := r2, invalid := true, early := true, ddos := ddos2,
+                                  dones := st.dones.map (fun _ => []), todos := tails.map (fun _ => []) }
+                  else
                   decodeCompressedLoop T edition s4max g f
                     { r := r2, invalid := inv1 || inv, ddos := ddos2, dones := ds.reverse, todos := ts.reverse, pendingDelayed := false }
               else
